@@ -27,6 +27,8 @@ INPLACE = {"sort", "fill", "put", "partition", "resize", "itemset", "reverse", "
 
 def check(ctx):
     repo = ctx.repo
+    from . import generic as _gen
+    _gen.language_traps(ctx, _gen.anchor_functions(repo, "C08"), "the property holds for every input, on every call")
     from . import generic
     generic.value_casts(ctx, [f for f in generic.module_functions(repo, "dataiter.aggregate") if "numba" in f.name],
                         "the compiled kernel returns the same values as the Python kernel for every element type it is admitted for")
